@@ -52,6 +52,9 @@ func (m *Machine) mergoMerge(dst *Value, src Value, t types.Type, skipNamed func
 		if dp.P == sp.P {
 			return
 		}
+		if m.mergoNoDeref {
+			return // WithoutDereference: a non-nil destination pointer is kept as it is
+		}
 		m.mergoMerge(dp.P, *sp.P, u.Elem(), skipNamed, depth+1)
 	case *types.Slice:
 		ssl, _ := src.(Slice)
